@@ -39,6 +39,7 @@ static mc_ctr *c_eval,*c_enc,*c_dec,*c_pk,*c_plc,*c_insitu,*c_insitu_inexact;
 static mc_set *obs;
 static char g_ctx[400];
 static long l_insitu,l_insitu_inexact;
+static mc_ctr *c_cov_lagdelay,*c_cov_lagdelay34,*c_whatif;
 
 /* ============================================================================================ in-situ wrappers */
 #ifdef C15_INSITU
@@ -93,14 +94,35 @@ static void insitu_fail(const char *kern,int lvl,const char *what){ char sig[96]
    const opus_int HarmShapeGain_Q14[MAX_NB_SUBFR], const opus_int Tilt_Q14[MAX_NB_SUBFR], const opus_int32 LF_shp_Q14[MAX_NB_SUBFR], \
    const opus_int32 Gains_Q16[MAX_NB_SUBFR], const opus_int pitchL[MAX_NB_SUBFR], const opus_int Lambda_Q10, const opus_int LTP_scale_Q14
 #define NSQ_PASS(N_,I_,P_) psEncC,N_,I_,x16,P_,PredCoef_Q12,LTPCoef_Q14,AR_Q13,HarmShapeGain_Q14,Tilt_Q14,LF_shp_Q14,Gains_Q16,pitchL,Lambda_Q10,LTP_scale_Q14
+/* coverage of the decision structure of silk_NSQ_del_dec, measured on the live calls */
+static long l_cov_lagdelay,l_cov_lagdelay34,l_whatif,wi_ctr;
 static void insitu_nsq(int lvl,int dd,NSQ_ARGS){
-   silk_nsq_state N2; SideInfoIndices I2; opus_int8 p2[MAX_FRAME_LENGTH]; int n=psEncC->nb_subfr*psEncC->subfr_length; char w[200];
+   silk_nsq_state N2; SideInfoIndices I2; opus_int8 p2[MAX_FRAME_LENGTH]; int n=psEncC->nb_subfr*psEncC->subfr_length, lp0=NSQ->lagPrev; char w[240];
+   if(dd){
+      /* (a) what the codec itself produces: a NON-voiced frame whose decision delay is limited by the previous frame's pitch lag */
+      if(psIndices->signalType!=TYPE_VOICED && NSQ->lagPrev>0 && NSQ->lagPrev-LTP_ORDER/2-1 < silk_min_int(DECISION_DELAY,psEncC->subfr_length)){ l_cov_lagdelay++; if(psEncC->nStatesDelayedDecision>=3) l_cov_lagdelay34++; }
+      /* (b) what-if enumeration over the kernel's own decision parameters, on copies of the live arguments (nothing is committed):
+             lagPrev over {0, every lag from the 2 ms minimum to 48, 49, 64, 18 ms maximum}, nStatesDelayedDecision over {2,3,4},
+             the frame taken as coded / as UNVOICED. Two variants per live call, rotating deterministically through the product. */
+      { int j; for(j=0;j<2;j++){ static silk_encoder_state E2; silk_nsq_state N3; SideInfoIndices I3; opus_int8 p3[MAX_FRAME_LENGTH];
+           int minl=2*psEncC->fs_kHz, nl=48-minl+1+4, v=(int)(wi_ctr*2+j), li=v%nl, ns=2+(v/nl)%3, lp, asunv=(j==1);
+           lp= li==0?0 : li<=48-minl+1? minl+li-1 : li==48-minl+2? 49 : li==48-minl+3? 64 : 18*psEncC->fs_kHz;
+           memcpy(&E2,psEncC,sizeof E2); E2.nStatesDelayedDecision=ns;
+           memcpy(&N2,NSQ,sizeof N2); memcpy(&I2,psIndices,sizeof I2); memcpy(p2,pulses,n); N2.lagPrev=lp; if(asunv&&I2.signalType==TYPE_VOICED) I2.signalType=TYPE_UNVOICED;
+           memcpy(&N3,&N2,sizeof N3); memcpy(&I3,&I2,sizeof I3); memcpy(p3,p2,n);
+           silk_NSQ_del_dec_c(&E2,&N2,&I2,x16,p2,PredCoef_Q12,LTPCoef_Q14,AR_Q13,HarmShapeGain_Q14,Tilt_Q14,LF_shp_Q14,Gains_Q16,pitchL,Lambda_Q10,LTP_scale_Q14);
+           (*REAL_SILK_NSQ_DEL_DEC_IMPL[lvl])(&E2,&N3,&I3,x16,p3,PredCoef_Q12,LTPCoef_Q14,AR_Q13,HarmShapeGain_Q14,Tilt_Q14,LF_shp_Q14,Gains_Q16,pitchL,Lambda_Q10,LTP_scale_Q14);
+           l_whatif++;
+           if(memcmp(&N2,&N3,sizeof N2)||memcmp(&I2,&I3,sizeof I2)||memcmp(p2,p3,n)){ char sig[96]; int i,fp=-1; for(i=0;i<n;i++) if(p2[i]!=p3[i]){ fp=i; break; }
+              snprintf(sig,sizeof sig,"insitu:silk_NSQ_del_dec:level%d:whatif_not_bit_identical",lvl);
+              mc_fail(sig,"silk_NSQ_del_dec at level %d (%s) differs from silk_NSQ_del_dec_c on a copy of live codec arguments with lagPrev=%d, nStatesDelayedDecision=%d, signalType=%d%s (fs_kHz=%d nb_subfr=%d subfr_length=%d warping_Q16=%d): state %s, indices %s, first differing pulse %d | context: %s",lvl,c15_level_name[lvl],lp,ns,I3.signalType,asunv?" (voiced frame taken as unvoiced)":"",psEncC->fs_kHz,psEncC->nb_subfr,psEncC->subfr_length,psEncC->warping_Q16,memcmp(&N2,&N3,sizeof N2)?"differs":"equal",memcmp(&I2,&I3,sizeof I2)?"differ":"equal",fp,g_ctx); } }
+        wi_ctr++; } }
    memcpy(&N2,NSQ,sizeof N2); memcpy(&I2,psIndices,sizeof I2); memcpy(p2,pulses,n);
    if(dd) silk_NSQ_del_dec_c(NSQ_PASS(&N2,&I2,p2)); else silk_NSQ_c(NSQ_PASS(&N2,&I2,p2));
    if(dd) (*REAL_SILK_NSQ_DEL_DEC_IMPL[lvl])(NSQ_PASS(NSQ,psIndices,pulses)); else (*REAL_SILK_NSQ_IMPL[lvl])(NSQ_PASS(NSQ,psIndices,pulses));
    l_insitu++;
    if(memcmp(&N2,NSQ,sizeof N2)||memcmp(&I2,psIndices,sizeof I2)||memcmp(p2,pulses,n)){ int i,fp=-1; for(i=0;i<n;i++) if(p2[i]!=pulses[i]){ fp=i; break; }
-      snprintf(w,sizeof w,"fs_kHz=%d nb_subfr=%d subfr_length=%d nStatesDelayedDecision=%d warping_Q16=%d signalType=%d: state %s, indices %s, first differing pulse %d",psEncC->fs_kHz,psEncC->nb_subfr,psEncC->subfr_length,psEncC->nStatesDelayedDecision,psEncC->warping_Q16,psIndices->signalType,
+      snprintf(w,sizeof w,"fs_kHz=%d nb_subfr=%d subfr_length=%d nStatesDelayedDecision=%d warping_Q16=%d signalType=%d lagPrev(before)=%d: state %s, indices %s, first differing pulse %d",psEncC->fs_kHz,psEncC->nb_subfr,psEncC->subfr_length,psEncC->nStatesDelayedDecision,psEncC->warping_Q16,psIndices->signalType,lp0,
          memcmp(&N2,NSQ,sizeof N2)?"differs":"equal",memcmp(&I2,psIndices,sizeof I2)?"differ":"equal",fp);
       insitu_fail(dd?"silk_NSQ_del_dec":"silk_NSQ",lvl,w); } }
 #define M(k) static void tr_nsq_##k(NSQ_ARGS){ insitu_nsq(k,0,NSQ_PASS(NSQ,psIndices,pulses)); } static void tr_dd_##k(NSQ_ARGS){ insitu_nsq(k,1,NSQ_PASS(NSQ,psIndices,pulses)); }
@@ -209,8 +231,31 @@ static const int CPLX[7]={0,1,2,3,5,7,10};
 static const int SIGS[9]={SIG_SPEECH,SIG_NOISE,SIG_SQUARE,SIG_MULTITONE,SIG_SILENCE,SIG_SWEEP,SIG_BANDNOISE,SIG_CLICKS,SIG_STEREOPAN};
 /* signal index 9 (option --loud 1): white noise at twice the amplitude, clipped = full-scale noise; drives the decoder (and its concealment filters) into saturation */
 #define SG_LOUD 9
-static int sg_fam(int sg){ return sg==SG_LOUD? SIG_NOISE : SIGS[sg]; }
-static const char *sg_name(int sg){ return sg==SG_LOUD? "full-scale white noise (white-noise x2, clipped)" : sig_name[SIGS[sg]]; }
+/* signal indices 10, 11 (option --hipitch, default on): families designed from the decision structure of the SILK noise-shaping
+   quantisers rather than from "typical audio": short HIGH-PITCHED voiced segments (f0 190..490 Hz, i.e. pitch lags 16..84 at the 8/12/16 kHz
+   internal rates, down to the minimum lag of 2 ms) alternating every 1-3 x 20 ms with unvoiced noise and digital silence. They produce
+   VOICED frames whose last-subframe lag is below DECISION_DELAY+3 immediately followed by NON-voiced frames (the lagPrev-limited
+   decision delay of silk_NSQ_del_dec), voiced onsets/offsets inside a frame, and LTP rewhitening at short lags. NFV frames are coded. */
+#define SG_HP1 10
+#define SG_HP2 11
+static int NFV;
+static int sg_fam(int sg){ return sg==SG_LOUD? SIG_NOISE : sg>=SG_HP1? SIG_NOISE : SIGS[sg]; }
+static const char *sg_name(int sg){ return sg==SG_LOUD? "full-scale white noise (white-noise x2, clipped)" : sg==SG_HP1? "high-pitched voiced bursts (1-3 x 20 ms, f0 190-490 Hz) alternating with noise / silence" : sg==SG_HP2? "high-pitched voiced 40-60 ms segments with 20 ms noise / silence gaps" : sig_name[SIGS[sg]]; }
+typedef struct { long n; int seg; long seg_end; double ph; uint32_t lcg; } hpgen;
+/* segment tables: type 0 voiced, 1 noise, 2 silence; length in 20 ms units */
+static const signed char HPSEG[2][12][2]={ {{0,1},{1,1},{0,2},{2,1},{0,3},{1,2},{0,1},{2,1},{0,2},{1,1},{0,1},{2,2}},
+                                           {{0,3},{1,1},{0,3},{2,1},{0,2},{1,1},{0,2},{2,1},{0,3},{1,1},{0,2},{2,1}} };
+static const short HPF0[10]={210,260,330,410,490,230,300,370,450,190};
+static void hp_gen(hpgen *g,int which,int fs,int ch,short *out,int n,int variant){
+   int i,c; for(i=0;i<n;i++){ int typ,v=0; double f0;
+      if(g->n>=g->seg_end){ if(g->n>0) g->seg++; g->seg_end=g->n+(long)HPSEG[which][g->seg%12][1]*fs/50; g->ph=0; }
+      typ=HPSEG[which][g->seg%12][0]; f0=HPF0[(g->seg/2+variant)%10];
+      g->lcg=g->lcg*1664525u+1013904223u;
+      if(typ==0){ int k; double s=0; g->ph+=2*M_PI*f0/fs; if(g->ph>2*M_PI) g->ph-=2*M_PI; for(k=1;k<=10&&k*f0<0.45*fs;k++) s+=sin(k*g->ph)/k; v=(int)lrint(s*6000)+(((int)(g->lcg>>16)&0xFF)-128)/8; }
+      else if(typ==1) v=(((int)(g->lcg>>16)&0xFFFF)-32768)/10;
+      else v=0;
+      for(c=0;c<ch;c++) out[i*ch+c]=(short)((c&1)?-v*3/4:v);
+      g->n++; } }
 enum { DV_NONE=0, DV_RATE, DV_DUR, DV_VBR, DV_FEC, DV_DTX, DV_MODE, DV_BW, DV_CH, DV_PRED, DV_NDIM };
 static const char *const dvname[DV_NDIM]={"-","bitrate","duration_x0.1ms","vbr(0=cbr,2=cvbr)","fec+loss25","dtx","force_mode","bandwidth","force_channels","prediction_disabled"};
 typedef struct { int dim,val; } dev;
@@ -227,9 +272,9 @@ static void mk_devs(void){ static const int rates[9]={6000,9000,12000,16000,2400
    DEVS[NDEV].dim=DV_PRED; DEVS[NDEV++].val=1; }
 typedef struct { short base,cx,sg,d1,d2; } ecfg;
 static ecfg *EC; static long NEC;
-static void mk_cfgs(int nbase,int nsig,int twodev,int loud){ int b,c,s,s_,i,j; long cap=0,n=0; int pass;
+static void mk_cfgs(int nbase,int nsig,int twodev,int loud,int hip){ int b,c,s,s_,i,j; long cap=0,n=0; int pass;
    for(pass=0;pass<2;pass++){ n=0;
-      for(b=0;b<nbase;b++) for(c=0;c<7;c++) for(s_=0;s_<nsig+(loud?1:0);s_++) for(i=0;i<NDEV;i++){ s= s_<nsig? s_ : SG_LOUD;
+      for(b=0;b<nbase;b++) for(c=0;c<7;c++) for(s_=0;s_<nsig+(loud?1:0)+(hip?2:0);s_++) for(i=0;i<NDEV;i++){ s= s_<nsig? s_ : (loud&&s_==nsig)? SG_LOUD : SG_HP1+(s_-nsig-(loud?1:0));
          if(DEVS[i].dim==DV_CH && EB[b].ch==1) continue;
          if(pass){ EC[n].base=b; EC[n].cx=c; EC[n].sg=s; EC[n].d1=i; EC[n].d2=0; } n++;
          if(twodev && i>0) for(j=i+1;j<NDEV;j++){ if(DEVS[j].dim==DEVS[i].dim) continue; if(DEVS[j].dim==DV_CH && EB[b].ch==1) continue;
@@ -259,19 +304,19 @@ static runrec RR[5];
 static short *sigbuf;
 
 static void run_enc_level(const ecfg *k,int L,runrec *r,const char *ctx){
-   const ebase *b=&EB[k->base]; int err=0,f,dur=200,fsz; OpusEncoder *e; OpusDecoder *d; siggen g;
+   const ebase *b=&EB[k->base]; int err=0,f,dur=200,fsz,NFK= k->sg>=SG_HP1? NFV:NF; OpusEncoder *e; OpusDecoder *d; siggen g; hpgen hg;
    c15_level=L;
    snprintf(g_ctx,sizeof g_ctx,"%s, level %d (create)",ctx,L);
    mc_case("codec:create","%s",g_ctx);
    e=opus_encoder_create(b->fs,b->ch,b->app,&err); d=opus_decoder_create(b->fs,b->ch,&err);
-   if(!e||!d){ mc_fail("codec:create_failed","%s: create returned %d",g_ctx,err); r->pcm_n=0; for(f=0;f<NF;f++) r->n[f]=-999; return; }
+   if(!e||!d){ mc_fail("codec:create_failed","%s: create returned %d",g_ctx,err); r->pcm_n=0; for(f=0;f<NFK;f++) r->n[f]=-999; return; }
    opus_encoder_ctl(e,OPUS_SET_BITRATE(b->rate)); opus_encoder_ctl(e,OPUS_SET_COMPLEXITY(CPLX[k->cx]));
    apply_dev(e,&DEVS[k->d1],&dur); apply_dev(e,&DEVS[k->d2],&dur);
    fsz=(int)((long)b->fs*dur/10000);
    sig_init(&g,sg_fam(k->sg),b->fs,b->ch,(uint32_t)(k->base*131+k->sg*17+3));
-   r->pcm_n=0;
-   for(f=0;f<NF;f++){ int n,dn; opus_uint32 er=0,dr=0;
-      sig_gen(&g,sigbuf,fsz); if(GAINSH||k->sg==SG_LOUD){ int GAINSH_=GAINSH+(k->sg==SG_LOUD); int i_; for(i_=0;i_<fsz*b->ch;i_++){ int v=sigbuf[i_]*(1<<GAINSH_); sigbuf[i_]=(short)(v>32767?32767:v<-32768?-32768:v); } }
+   r->pcm_n=0; memset(&hg,0,sizeof hg); hg.lcg=(uint32_t)(k->base*977+k->sg*131+k->cx*7+1);
+   for(f=0;f<NFK;f++){ int n,dn; opus_uint32 er=0,dr=0;
+      if(k->sg>=SG_HP1) hp_gen(&hg,k->sg-SG_HP1,b->fs,b->ch,sigbuf,fsz,k->base+k->d1); else sig_gen(&g,sigbuf,fsz); if(GAINSH||k->sg==SG_LOUD){ int GAINSH_=GAINSH+(k->sg==SG_LOUD); int i_; for(i_=0;i_<fsz*b->ch;i_++){ int v=sigbuf[i_]*(1<<GAINSH_); sigbuf[i_]=(short)(v>32767?32767:v<-32768?-32768:v); } }
       snprintf(g_ctx,sizeof g_ctx,"%s, level %d (%s), frame %d encode",ctx,L,c15_level_name[L],f);
       { char cs_[40]; snprintf(cs_,sizeof cs_,"codec:encode:level%d",L); mc_case(cs_,"%s",g_ctx); }
       n=opus_encode(e,sigbuf,fsz,r->pk[f],1500); MC_INC(c_enc);
@@ -279,7 +324,7 @@ static void run_enc_level(const ecfg *k,int L,runrec *r,const char *ctx){
       snprintf(g_ctx,sizeof g_ctx,"%s, level %d (%s), frame %d decode",ctx,L,c15_level_name[L],f);
       { char cs_[40]; snprintf(cs_,sizeof cs_,"codec:decode:level%d",L); mc_case(cs_,"%s",g_ctx); }
       if(n<0){ r->dret[f]=n; r->drng[f]=0; continue; }
-      if(f==2 && NF>3){ /* this packet is lost: concealment, then the stream continues */
+      if(f==2 && NFK>3){ /* this packet is lost: concealment, then the stream continues */
          dn=opus_decode(d,NULL,0,r->pcm+r->pcm_n,fsz,0); MC_INC(c_plc); r->drng[f]=0; r->dret[f]=dn; if(dn>0) r->pcm_n+=dn*b->ch; continue; }
       dn=opus_decode(d,r->pk[f],n,r->pcm+r->pcm_n,fsz,0); MC_INC(c_dec);
       opus_decoder_ctl(d,OPUS_GET_FINAL_RANGE(&dr)); r->drng[f]=dr; r->dret[f]=dn; if(dn>0) r->pcm_n+=dn*b->ch;
@@ -288,35 +333,35 @@ static void run_enc_level(const ecfg *k,int L,runrec *r,const char *ctx){
 }
 
 static void enc_item(long it){
-   const ecfg *k=&EC[it]; char ctx[300]; int L,f; uint64_t h;
+   const ecfg *k=&EC[it]; char ctx[300]; int L,f,NFK= k->sg>=SG_HP1? NFV:NF; uint64_t h;
    cfg_text(k,ctx,sizeof ctx);
    for(L=0;L<=MAXL;L++) run_enc_level(k,L,&RR[L],ctx);
    MC_INC(c_eval);
    for(L=0;L<=MAXL;L++){ runrec *r=&RR[L];
-      for(f=0;f<NF;f++){
+      for(f=0;f<NFK;f++){
          if(r->n[f]<0){ char sig[96]; snprintf(sig,sizeof sig,"codec:encode_error:level%d",L); mc_fail(sig,"%s: opus_encode returned %d at level %d frame %d",ctx,r->n[f],L,f); continue; }
          MC_INC(c_pk);
 #ifndef FIXED_POINT
          /* float build: the decoder of the same level reproduces the encoder's final range */
-         if(!(f==2&&NF>3) && (r->dret[f]<0 || r->drng[f]!=r->rng[f])){ char sig[96]; snprintf(sig,sizeof sig,"codec:float:level%d:final_range_mismatch",L);
+         if(!(f==2&&NFK>3) && (r->dret[f]<0 || r->drng[f]!=r->rng[f])){ char sig[96]; snprintf(sig,sizeof sig,"codec:float:level%d:final_range_mismatch",L);
             mc_fail(sig,"%s: level %d (%s) frame %d: encoder final range %08x, decoder returns %d with final range %08x; packet (%d bytes) %s",ctx,L,c15_level_name[L],f,r->rng[f],r->dret[f],r->drng[f],r->n[f],mc_hex(r->pk[f],r->n[f]<48?r->n[f]:48)); }
 #endif
       }
 #ifdef FIXED_POINT
       if(L>0){ runrec *z=&RR[0]; int bad=-1; const char *what="";
-         for(f=0;f<NF&&bad<0;f++){ if(r->n[f]!=z->n[f]){ bad=f; what="packet length"; } else if(r->n[f]>0&&memcmp(r->pk[f],z->pk[f],r->n[f])){ bad=f; what="packet bytes"; } else if(r->rng[f]!=z->rng[f]){ bad=f; what="encoder final range"; } }
+         for(f=0;f<NFK&&bad<0;f++){ if(r->n[f]!=z->n[f]){ bad=f; what="packet length"; } else if(r->n[f]>0&&memcmp(r->pk[f],z->pk[f],r->n[f])){ bad=f; what="packet bytes"; } else if(r->rng[f]!=z->rng[f]){ bad=f; what="encoder final range"; } }
          if(bad>=0){ char sig[96]; int i,fb=-1; if(r->n[bad]==z->n[bad]) for(i=0;i<r->n[bad];i++) if(r->pk[bad][i]!=z->pk[bad][i]){ fb=i; break; }
             snprintf(sig,sizeof sig,"codec:fixed:level%d:packets_differ_from_level0",L);
             mc_fail(sig,"%s: frame %d %s differs between level %d (%s) and level 0: %d bytes range %08x vs %d bytes range %08x, first differing byte %d; level-%d packet starts %s",ctx,bad,what,L,c15_level_name[L],r->n[bad],r->rng[bad],z->n[bad],z->rng[bad],fb,L,mc_hex(r->pk[bad],r->n[bad]<32?r->n[bad]:32)); }
          else { int i,fp=-1; if(r->pcm_n!=z->pcm_n) fp=-2; else for(i=0;i<r->pcm_n;i++) if(r->pcm[i]!=z->pcm[i]){ fp=i; break; }
-            for(f=0;f<NF;f++) if(r->drng[f]!=z->drng[f]||r->dret[f]!=z->dret[f]){ if(fp==-1) fp=-3-f; }
+            for(f=0;f<NFK;f++) if(r->drng[f]!=z->drng[f]||r->dret[f]!=z->dret[f]){ if(fp==-1) fp=-3-f; }
             if(fp!=-1){ char sig[96]; snprintf(sig,sizeof sig,"codec:fixed:level%d:pcm_differs_from_level0",L);
                mc_fail(sig,"%s: identical packets (frame 2 lost -> PLC) decode to different PCM / decoder range at level %d (%s) than at level 0: %s %d (%d vs %d), %d vs %d samples",ctx,L,c15_level_name[L],fp>=0?"first differing sample":"code",fp,fp>=0?r->pcm[fp]:0,fp>=0?z->pcm[fp]:0,r->pcm_n,z->pcm_n); } } }
 #endif
    }
    /* observation class: what the packets look like (mode/bandwidth/frame-count from the TOC, size class) — level independent */
-   { runrec *z=&RR[0]; int last=NF-1; h=mc_mix(k->base,k->cx); for(f=0;f<NF;f++) if(z->n[f]>0){ h=mc_mix(h,z->pk[f][0]); h=mc_mix(h,z->n[f]>2?(z->n[f]>40?(z->n[f]>200?3:2):1):0); }
-     if(mc_set_add(obs,h)) mc_sample("%s: %d frames x levels 0..%d; last packet %d bytes TOC 0x%02x range %08x at every level%s",ctx,NF,MAXL,z->n[last],z->n[last]>0?z->pk[last][0]:0,z->rng[last],
+   { runrec *z=&RR[0]; int last=NFK-1; h=mc_mix(k->base,k->cx); for(f=0;f<NFK;f++) if(z->n[f]>0){ h=mc_mix(h,z->pk[f][0]); h=mc_mix(h,z->n[f]>2?(z->n[f]>40?(z->n[f]>200?3:2):1):0); }
+     if(mc_set_add(obs,h)) mc_sample("%s: %d frames x levels 0..%d; last packet %d bytes TOC 0x%02x range %08x at every level%s",ctx,NFK,MAXL,z->n[last],z->n[last]>0?z->pk[last][0]:0,z->rng[last],
 #ifdef FIXED_POINT
         "; packets and PCM byte-identical across levels"
 #else
@@ -379,7 +424,14 @@ static void dec_item(long it){
 }
 
 static long NENC_RUN;
-static void item(long it,void *ctx){ (void)ctx; if(it<NENC_RUN) enc_item(it); else dec_item(it-NENC_RUN);
+static void item(long it,void *ctx){ (void)ctx;
+#ifdef C15_INSITU
+   wi_ctr=it*7;      /* what-if rotation restarts per item (deterministic whatever worker runs it), offset so that items cover different residues */
+#endif
+   if(it<NENC_RUN) enc_item(it); else dec_item(it-NENC_RUN);
+#ifdef C15_INSITU
+   MC_ADD(c_cov_lagdelay,l_cov_lagdelay); MC_ADD(c_cov_lagdelay34,l_cov_lagdelay34); MC_ADD(c_whatif,l_whatif); l_cov_lagdelay=l_cov_lagdelay34=l_whatif=0;
+#endif
    if(l_insitu){ MC_ADD(c_insitu,l_insitu); MC_ADD(c_insitu_inexact,l_insitu_inexact); l_insitu=l_insitu_inexact=0; } }
 
 int main(int argc,char **argv){
@@ -403,12 +455,14 @@ int main(int argc,char **argv){
    mc_info("OPUS_CHECK_ASM build with assertions: every SIMD kernel that carries an upstream self-check re-runs its C twin and asserts equality");
 #endif
    c_eval=mc_counter("evaluations"); c_enc=mc_counter("encode_calls"); c_dec=mc_counter("decode_calls"); c_plc=mc_counter("plc_or_fec_decode_calls"); c_pk=mc_counter("packets_compared");
+   c_cov_lagdelay=mc_counter("nsq_dd_nonvoiced_delay_limited_by_lagPrev"); c_cov_lagdelay34=mc_counter("nsq_dd_same_with_3_or_4_states"); c_whatif=mc_counter("nsq_dd_whatif_variants_compared");
    c_insitu=mc_counter("insitu_kernel_calls_compared"); c_insitu_inexact=mc_counter("insitu_float_results_differing_within_bound");
    { mc_ctr *lv=mc_counter("arch_level_detected"); *lv=det; lv=mc_counter("arch_levels_exercised"); *lv=MAXL+1; }
    obs=mc_set_new(20);
    /* sentinel (G3): the interposition really takes effect — an encoder created at level L reports arch L in its CELT state */
    for(L=0;L<=MAXL;L++){ int err; OpusEncoder *e; c15_level=L; e=opus_encoder_create(48000,1,OPUS_APPLICATION_AUDIO,&err); if(!e||opus_select_arch()!=L){ mc_fail("machinery:interposition","opus_select_arch interposition inactive at level %d",L); } if(e) opus_encoder_destroy(e); }
-   mk_devs(); mk_cfgs(nbase,nsig,twodev,(int)mc_arg("--loud",0));
+   NFV=(int)mc_arg("--vframes",16); if(NFV>MAXF) NFV=MAXF; if(NFV<NF) NFV=NF;
+   mk_devs(); mk_cfgs(nbase,nsig,twodev,(int)mc_arg("--loud",0),(int)mc_arg("--hipitch",1));
    sigbuf=malloc(sizeof(short)*2*48000/8);
    for(L=0;L<5;L++){ RR[L].pcm=malloc(sizeof(short)*2*(size_t)(5760*MAXF+16)); DR[L].pcm=malloc(sizeof(short)*2*(size_t)(5760*34)); }
    corpus_build(&CP,thorough?1:0);
